@@ -293,6 +293,98 @@ type rop struct {
 	attr    string // the seq attribute as written on the wire (if raw), when it is not the plain decimal of seq
 	raw     bool
 	tail    []rop // kind 'C': data packets of the peer that arrive while Close waits for the answer
+	segs    []seg // kind 'd': how the body of the <data/> element is serialised (nil: one piece of plain text)
+}
+
+// seg is one piece of the serialised body of a <data/> element.  The payload of the packet is the
+// character data of the element: what the pieces of kind T, C and E contribute, concatenated.
+//
+//	T plain text    C a CDATA section    E numeric character references (one per byte)
+//	M a comment (contributes nothing)
+type seg struct {
+	kind byte
+	text string
+}
+
+func segsText(ss []seg) string {
+	var b strings.Builder
+	for _, s := range ss {
+		if s.kind != 'M' {
+			b.WriteString(s.text)
+		}
+	}
+	return b.String()
+}
+
+func segsWire(ss []seg) string {
+	var b strings.Builder
+	for _, s := range ss {
+		switch s.kind {
+		case 'T':
+			b.WriteString(s.text)
+		case 'C':
+			b.WriteString("<![CDATA[" + s.text + "]]>")
+		case 'E':
+			for i, c := range []byte(s.text) {
+				if i%2 == 0 {
+					fmt.Fprintf(&b, "&#%d;", c)
+				} else {
+					fmt.Fprintf(&b, "&#x%X;", c)
+				}
+			}
+		case 'M':
+			b.WriteString("<!--" + s.text + "-->")
+		}
+	}
+	return b.String()
+}
+
+func segsTok(ss []seg) string {
+	var t []string
+	for _, s := range ss {
+		t = append(t, string(s.kind)+common.HexS(s.text))
+	}
+	return strings.Join(t, "+")
+}
+
+// parsePayloadTok: the payload field of a `d:` token: plain hex (one piece of text) or pieces
+// `<K><hex>` joined by `+`.
+func parsePayloadTok(f string) (string, []seg) {
+	if f == "" || f == "-" || !strings.ContainsAny(f[:1], "TCEM") {
+		b, _ := common.UnHex(f)
+		return string(b), nil
+	}
+	var ss []seg
+	for _, t := range strings.Split(f, "+") {
+		if t == "" {
+			continue
+		}
+		b, _ := common.UnHex(t[1:])
+		ss = append(ss, seg{t[0], string(b)})
+	}
+	return segsText(ss), ss
+}
+
+// segmented: the same packet with its body serialised in the given pieces.
+func (o rop) segmented(ss []seg) rop {
+	o.segs = ss
+	o.payload = segsText(ss)
+	return o
+}
+
+// body: the content of the <data/> element on the wire.
+func (o rop) body() string {
+	if o.segs != nil {
+		return segsWire(o.segs)
+	}
+	return o.payload
+}
+
+func (o rop) payTok() string {
+	if o.segs != nil {
+		return segsTok(o.segs)
+	}
+	return common.HexS(o.payload)
 }
 
 // seqText: the seq attribute on the wire.
@@ -321,9 +413,9 @@ func (o rop) tok() string {
 	switch o.kind {
 	case 'd':
 		if _, ok := canonicalSeq(o.seqText()); !ok {
-			return fmt.Sprintf("d:%s:x%s:%s", common.B(o.known), common.HexS(o.seqText()), common.HexS(o.payload))
+			return fmt.Sprintf("d:%s:x%s:%s", common.B(o.known), common.HexS(o.seqText()), o.payTok())
 		}
-		return fmt.Sprintf("d:%s:%s:%s", common.B(o.known), o.seqText(), common.HexS(o.payload))
+		return fmt.Sprintf("d:%s:%s:%s", common.B(o.known), o.seqText(), o.payTok())
 	case 'r':
 		return fmt.Sprintf("r:%d", o.n)
 	case 'b':
@@ -383,9 +475,9 @@ func runRecv(r *common.Run, maxbuf0 int, carrier string, ops []rop, class string
 		}
 		delete(p.replies, "msgerr")
 		if o.msg {
-			p.feed(fmt.Sprintf(`<message xmlns="jabber:client" id="%s" from="%s" to="me@example.net/h"><data xmlns="http://jabber.org/protocol/ibb" seq="%s" sid="%s">%s</data></message>`, id, peerJID, xmlAttr(o.seqText()), sid, o.payload))
+			p.feed(fmt.Sprintf(`<message xmlns="jabber:client" id="%s" from="%s" to="me@example.net/h"><data xmlns="http://jabber.org/protocol/ibb" seq="%s" sid="%s">%s</data></message>`, id, peerJID, xmlAttr(o.seqText()), sid, o.body()))
 		} else {
-			p.feed(fmt.Sprintf(`<iq xmlns="jabber:client" type="set" id="%s" from="%s" to="me@example.net/h"><data xmlns="http://jabber.org/protocol/ibb" seq="%s" sid="%s">%s</data></iq>`, id, peerJID, xmlAttr(o.seqText()), sid, o.payload))
+			p.feed(fmt.Sprintf(`<iq xmlns="jabber:client" type="set" id="%s" from="%s" to="me@example.net/h"><data xmlns="http://jabber.org/protocol/ibb" seq="%s" sid="%s">%s</data></iq>`, id, peerJID, xmlAttr(o.seqText()), sid, o.body()))
 		}
 		return id
 	}
